@@ -2,6 +2,12 @@
 import Sonic.Gen.Tables
 import Sonic.Driver
 import Sonic.Props.C05
+import Sonic.Props.C06
 import Sonic.Props.C08
 import Sonic.Props.C09
+import Sonic.Props.C10
+import Sonic.Props.C11
+import Sonic.Props.C12
 import Sonic.Props.C14
+import Sonic.Props.C15
+import Sonic.Props.C18
